@@ -287,6 +287,7 @@
                     starts-with($text, 'NOTICESOFMOTION') or
                     starts-with($text, 'ORALSTATEMENTS') or
                     starts-with($text, 'P ') or
+                    starts-with($text, 'P&#9;') or
                     starts-with($text, 'P.') or
                     starts-with($text, 'PAPERS') or
                     starts-with($text, 'PARA') or
